@@ -1,7 +1,208 @@
 import Mutagen.Driver.Util
+import Mutagen.Model.Tracker
 namespace Mutagen.Driver.C30
+open Mutagen.Driver Mutagen.Model.Tracker
 
-/-- Model-side handler for one line of the C30 correspondence stream. -/
-def handle (_line : String) : String := "unimplemented"
+/-!
+Two kinds of lines.
+
+`conc <n> <event> <event> …` — a journal of one concurrent execution of the
+real Tracker/TrackingLock with callers `0..n` (trace validation). Events, in
+the order they were journalled:
+
+* `c<w>:<op>`   caller `w` is about to call `<op>`: `n` NotifyOfChange,
+                `p<prev>` WaitForChange(prev), `t` Terminate, `l`/`u`/`v`
+                TrackingLock Lock/Unlock/UnlockWithoutNotify;
+* `x<w>`        the context of `w`'s current call is about to be cancelled;
+* `s<w>=<snap>` `w` released the tracker mutex (end of a critical section);
+                `sT=<snap>` the tracking goroutine did (`Cond.Wait` or exit).
+                `<snap>` = `index,terminated,len(pollRequests)` read while
+                the mutex was still held;
+* `r<w>=<res>`  `w`'s call returned `<res>` (`index/err` or `-`).
+
+The text after `=` is what was observed; the model ignores it and prints its
+own value for every `s`/`r` event. An event that is not enabled in the model
+prints `!<position>` and stops. Internal steps without a journal entry are
+placed canonically: `recv`/`termDone`/`tlAcq` at the return event (latest
+possible), `tlRel` at the call event (earliest possible).
+
+`seq <op> …` — a sequential script run to quiescence after every op on a
+Tracker built by the real `NewTracker`: `n`, `w<prev>` (start a background
+WaitForChange, waiter ids count from 1), `x<k>` (cancel waiter k), `t`, `l`,
+`u`, `v`. Output per op: the waiters that completed during that op,
+`k:index/err,…` or `-`.
+-/
+
+def showErr : Err → String
+  | .ok => "ok" | .terminated => "term" | .canceled => "canc"
+
+def showRes : Option Result → String
+  | none => "-"
+  | some r => s!"{r.index}/{showErr r.err}"
+
+def nreq (s : State) (n : Nat) : Nat :=
+  ((List.range (n + 1)).filter fun w => (s.reqs w).isSome).length
+
+def snap (s : State) (n : Nat) : String :=
+  s!"{s.index},{if s.terminated then 1 else 0},{nreq s n}"
+
+def parseOp (t : String) : Option Op :=
+  match t.toList with
+  | ['n'] => some .notify
+  | ['t'] => some .terminate
+  | ['l'] => some .tlLock
+  | ['u'] => some .tlUnlock
+  | ['v'] => some .tlUnlockQuiet
+  | 'p' :: rest => (String.ofList rest).toNat?.map Op.poll
+  | _ => none
+
+/-- The return event of caller `w`: place the pending internal step, then return. -/
+def returnStep (s : State) (w : Nat) : Option (State × Option Result) := do
+  let s1 ← match s.pc w with
+    | .done _ => some s
+    | .pollWait _ => step s (.recv w)
+    | .termWait => step s (.termDone w)
+    | .tlLock => step s (.tlAcq w)
+    | _ => none
+  match s1.pc w with
+  | .done r => do
+    let s2 ← step s1 (.ret w)
+    pure (s2, r)
+  | _ => none
+
+/-- One journal event: new state and the model's output token (if any). -/
+def concEvent (n : Nat) (s : State) (tok : String) : Option (State × Option String) :=
+  let body := (tok.splitOn "=").headD ""
+  match body.toList with
+  | 'c' :: rest =>
+    match (String.ofList rest).splitOn ":" with
+    | [w, op] => do
+      let w ← w.toNat?
+      let op ← parseOp op
+      let s1 ← step s (.call w op)
+      match op with
+      | .tlUnlock | .tlUnlockQuiet => do
+        let s2 ← step s1 (.tlRel w)
+        pure (s2, none)
+      | _ => pure (s1, none)
+    | _ => none
+  | 'x' :: rest => do
+    let w ← (String.ofList rest).toNat?
+    let s1 ← step s (.cancel w)
+    pure (s1, none)
+  | ['s', 'T'] => do
+    let s1 ← step s .track
+    pure (s1, some (snap s1 n))
+  | 's' :: rest => do
+    let w ← (String.ofList rest).toNat?
+    let s1 ← step s (.cs w)
+    pure (s1, some (snap s1 n))
+  | 'r' :: rest => do
+    let w ← (String.ofList rest).toNat?
+    let (s1, r) ← returnStep s w
+    pure (s1, some (showRes r))
+  | _ => none
+
+def concRun (n : Nat) : State → List String → Nat → List String → List String
+  | _, [], _, acc => acc.reverse
+  | s, tok :: toks, i, acc =>
+    match concEvent n s tok with
+    | none => (s!"!{i}" :: acc).reverse
+    | some (s1, none) => concRun n s1 toks (i + 1) acc
+    | some (s1, some out) => concRun n s1 toks (i + 1) (out :: acc)
+
+/-! Sequential scripts. -/
+
+/-- Complete every waiter that can complete; returns the completions. -/
+def collect (s : State) : List Nat → State × List (Nat × Option Result)
+  | [] => (s, [])
+  | k :: ks =>
+    let try1 : Option (State × Option Result) :=
+      match s.pc k with
+      | .done _ => returnStep s k
+      | .pollWait _ =>
+        match s.chan k with
+        | some _ => returnStep s k
+        | none => if s.cancelled k then (step s (.cs k)).bind fun s1 => returnStep s1 k else none
+      | _ => none
+    match try1 with
+    | some (s1, r) =>
+      let (s2, rest) := collect s1 ks
+      (s2, (k, r) :: rest)
+    | none => collect s ks
+
+/-- Run the tracking goroutine if it is runnable, then let waiters complete. -/
+def settle (s : State) (waiters : List Nat) : State × List (Nat × Option Result) :=
+  let s1 := match step s .track with | some s' => s' | none => s
+  collect s1 waiters
+
+def showDone (l : List (Nat × Option Result)) : String :=
+  if l.isEmpty then "-" else ",".intercalate (l.map fun (k, r) => s!"{k}:{showRes r}")
+
+/-- Foreground call by caller 0 that finishes with critical section + return
+(possibly after settling, for Terminate). -/
+def seqOp (s : State) (nw : Nat) (tok : String) : Option (State × Nat × String) :=
+  let waiters := (List.range nw).map (· + 1)
+  match tok.toList with
+  | ['n'] => do
+    let s ← step s (.call 0 .notify)
+    let s ← step s (.cs 0)
+    let (s, _) ← returnStep s 0
+    let (s, d) := settle s waiters
+    pure (s, nw, showDone d)
+  | ['t'] => do
+    let s ← step s (.call 0 .terminate)
+    let s ← step s (.cs 0)
+    let (s, d) := settle s waiters
+    let (s, _) ← returnStep s 0
+    pure (s, nw, showDone d)
+  | ['l'] => do
+    let s ← step s (.call 0 .tlLock)
+    let (s, _) ← returnStep s 0
+    pure (s, nw, "-")
+  | ['u'] => do
+    let s ← step s (.call 0 .tlUnlock)
+    let s ← step s (.tlRel 0)
+    let s ← step s (.cs 0)
+    let (s, _) ← returnStep s 0
+    let (s, d) := settle s waiters
+    pure (s, nw, showDone d)
+  | ['v'] => do
+    let s ← step s (.call 0 .tlUnlockQuiet)
+    let s ← step s (.tlRel 0)
+    let (s, _) ← returnStep s 0
+    pure (s, nw, "-")
+  | 'w' :: rest => do
+    let prev ← (String.ofList rest).toNat?
+    let k := nw + 1
+    let s ← step s (.call k (.poll prev))
+    let s ← step s (.cs k)
+    let (s, d) := settle s (waiters ++ [k])
+    pure (s, k, showDone d)
+  | 'x' :: rest => do
+    let k ← (String.ofList rest).toNat?
+    let s ← step s (.cancel k)
+    let (s, d) := settle s waiters
+    pure (s, nw, showDone d)
+  | _ => none
+
+def seqRun : State → Nat → List String → List String → List String
+  | _, _, [], acc => acc.reverse
+  | s, nw, tok :: toks, acc =>
+    match seqOp s nw tok with
+    | none => ("bad-op" :: acc).reverse
+    | some (s1, nw1, out) => seqRun s1 nw1 toks (out :: acc)
+
+def handle (line : String) : String :=
+  match fields line with
+  | "conc" :: n :: evs =>
+    match n.toNat? with
+    | some n => " ".intercalate (concRun n init evs 0 [])
+    | none => "bad-line"
+  | "seq" :: ops =>
+    -- the tracking goroutine runs once right after NewTracker
+    let s0 := (settle init []).1
+    " ".intercalate (seqRun s0 0 ops [])
+  | _ => "bad-line"
 
 end Mutagen.Driver.C30
